@@ -1066,10 +1066,16 @@ fn main() {
     }
 
     let seed = args.seed;
-    let n_dyn = args.n(30_000, 2_000_000);
+    // Under Miri a case costs seconds: a handful of dynamic cases and a seed-dependent quarter of
+    // the static shapes per interpreter run (the lane runs several seeds).
+    let shapes = STATIC_NAMES.len() as u64;
+    let (n_dyn, n_static, static_from) = if cfg!(miri) {
+        (args.get_u64("cases", 8), shapes / 4, (seed % 4) * (shapes / 4))
+    } else {
+        (args.n(60_000, 2_000_000), args.n(shapes * 400, shapes * 25_000), 0)
+    };
     par_cases(&mut r, &args, n_dyn, |i, r| dyn_case(r, seed, i));
-    let n_static = args.n(STATIC_NAMES.len() as u64 * 400, STATIC_NAMES.len() as u64 * 25_000);
-    par_cases(&mut r, &args, n_static, |i, r| static_case(r, seed, i));
+    par_cases(&mut r, &args, n_static, |i, r| static_case(r, seed, static_from + i));
     r.set("static_shapes", json!(STATIC_NAMES.len()));
 
     std::process::exit(r.finish());
